@@ -59,6 +59,9 @@ func init() {
 var totalSmall = overlayTest{Name: "snap-total-small", Level: "bounded", Src: "c06_total_small_test.go", PkgRel: "snap", Run: "^TestGvcC06TotalSmall$",
 	Bound: "bounded stand-in for the ring assembly (kmpDeduplicate, splitRing, dedupeInnersOuters, matchInnersToPolygons, RemoveSequences) and the no-points-found guard: the real SnapPolygon on every single ring of 1..5 (quick) / 1..6 (thorough) vertices over a 3x3 lattice of pixel centres, corners and border points, 3 id sets x 4 flag combinations, plus 20000 / 300000 random polygons of up to 3 rings; a panic or a run over 5 s fails"}
 
+var ringAssembly = overlayTest{Name: "ring-assembly-small-alphabet", Level: "bounded", Src: "c06_ring_assembly_test.go", PkgRel: "snap", Run: "^TestGvcC06RingAssembly$",
+	Bound: "bounded stand-in for the ring assembly: the real cleanupNewRing (kmpDeduplicate + splitRing) and kmpDeduplicate on EVERY ring without equal neighbours of length 0..15 (quick) / 0..18 (thorough) over 3 pixel centres and 0..10 / 0..12 over 4, as outer and as inner ring, plus 100000 / 1500000 pseudo-random zig-zag rings of 4..40 vertices over 6 points; per input: no panic, returns within 5 s, every returned vertex is an input vertex"}
+
 func init() {
 	propertyPlans["C06"] = &PropertyPlan{ID: "C06",
 		AlsoFuncs: []string{"snap.SnapPolygon"},
@@ -69,7 +72,7 @@ func init() {
 			"tile matrices whose pixel level exceeds 32: known finding F6 (excluded by the precondition of SnapPolygon's contract)"},
 		Assumptions: []string{"preconditions of SnapPolygon's contract (ids in [0,1000], indexable tile matrix set, level <= 32, |ordinate| < 2e8, round grid)",
 			"trusted leaves ensureCorrectWindingOrder, cleanupNewRing, dedupeInnersOuters, outersToPolygons, matchInnersToPolygons, reverseWindingOrderIfConfigured: only that they return (or panic) without touching the index; callers treat their panic as possible"},
-		Extra: func(cc *checkCtx) *extraResult { return cc.runOverlayTests([]overlayTest{totalSmall}) },
+		Extra: func(cc *checkCtx) *extraResult { return cc.runOverlayTests([]overlayTest{ringAssembly, totalSmall}) },
 		Demos: []findingDemo{{ID: "F6", Src: "f6_level_above_32_test.go", PkgRel: "snap", Run: "^TestGvcFindingF6$"}},
 	}
 	propertyPlans["C08"] = &PropertyPlan{ID: "C08",
@@ -87,10 +90,10 @@ func init() {
 	}
 	propertyPlans["C03"] = &PropertyPlan{ID: "C03",
 		NotDecided: []string{
-			"that the ring assembly only rearranges or drops the coordinates handed out by SnapClosestPoints (trusted leaves, no element-wise specification)",
+			"that the ring assembly only rearranges or drops the coordinates handed out by SnapClosestPoints (trusted leaves, no element-wise specification; bounded stand-in ring-assembly-small-alphabet only)",
 			"that insertCoord stores pixels with the extent and centre of the grid formula (indexGrid is an assumed postcondition of insertCoord; FromTileMatrixSet, InsertPoint, InsertCoord, InsertPolygon and the descent are proved to preserve / use it)",
 			"second sentence (bound by the reported deviation for grids that do not divide evenly): DeviationStats is only proved panic-free"},
 		Assumptions: []string{"float64 as real numbers: centre / 1e10 is exact", "preconditions of SnapPolygon's contract"},
-		Extra:       func(cc *checkCtx) *extraResult { return cc.runOverlayTests([]overlayTest{descentLattice}) },
+		Extra:       func(cc *checkCtx) *extraResult { return cc.runOverlayTests([]overlayTest{descentLattice, ringAssembly}) },
 	}
 }
